@@ -22,11 +22,11 @@ BUDGET = {'quick': 8000, 'thorough': 100000}
 WALL = {'quick': 45, 'thorough': 1500}
 RULE = ('one trash-empty (all modes) or trash-rm per case over trash content with symlink payloads (absolute, relative, dangling, '
         'chains, to files and to directories outside), directory payloads containing such links at depth <= 4, odd info names, trash '
-        'dirs reached through symlinked HOME / XDG_DATA_HOME; non-trivial = at least one purged payload is or contains a symlink '
+        'dirs reached through symlinked HOME / XDG_DATA_HOME or named by --trash-dir <symlink>/../<dir> next to a decoy at the textually collapsed path; non-trivial = at least one purged payload is or contains a symlink '
         'to something outside; distinct = (command, link kinds purged, depth)')
 ASSUMPTIONS = ['the checks run as root: the permission failures an ordinary user meets (unlink inside a read-only directory: EACCES) are emulated by injected persistent conditions',
                "a trash directory whose files/ or info/ is itself a symlink (foreign damage) is not generated: what 'under files/' means there is debatable"]
-PROBES = ['permission-conditions', 'link-payload-purged', 'link-inside-dir-purged', 'dangling-purged', 'through-symlinked-home', 'rm-command', 'empty-command',
+PROBES = ['trash-dir-spelled-through-symlink-dotdot', 'permission-conditions', 'link-payload-purged', 'link-inside-dir-purged', 'dangling-purged', 'through-symlinked-home', 'rm-command', 'empty-command',
           'mutating-ops-monitored', 'rmtree-used']
 TECHNIQUE = 'deterministic simulation with an in-kernel containment monitor on every mutating op plus full-snapshot frame check'
 LEVEL_TEXT = ('seeded exploration of trash contents; containment is evaluated at the op that would break it (resolved target of each '
@@ -119,7 +119,22 @@ def gen(rng):
             steps.append(['l', tdir + '/files/eiolink', home + '/precious'])
             steps.append(['f', tdir + '/info/eiolink.trashinfo', G.fmt_info(TG.pct(home + '/w/eiolink'), '2021-01-02T00:00:00'), 0o600])
             faults.append({'kind': 'cond', 'what': 'immutable', 'entry': '%RESOLVE%' + tdir + '/files/eiolink'})
-    if rng.random() < 0.6:
+    voltd = [t for t in locs if t[1] is not None]
+    if voltd and rng.random() < 0.12:
+        # --trash-dir spelled through '<symlink>/..': the kernel resolves it to the volume's trash directory; a textual
+        # normalisation would name ANOTHER directory, which exists and has files/ and info/ of its own
+        tdir, top, _u = rng.choice(voltd)
+        steps.append(['l', home + '/stick', L['work'][top]])
+        up = posixpath.relpath(tdir, posixpath.dirname(L['work'][top]))      # from the parent of the link target to the trash dir
+        spelled = home + '/stick/../' + up
+        decoy = posixpath.normpath(spelled)
+        steps.append(['d', decoy + '/files', 0o700])
+        steps.append(['d', decoy + '/info', 0o700])
+        steps.append(['f', decoy + '/files/thesis.txt', 'not yours to purge', 0o644])
+        steps.append(['f', decoy + '/files/unrecorded', 'no info for this one', 0o644])
+        steps.append(['f', decoy + '/info/thesis.txt.trashinfo', G.fmt_info(TG.pct(home + '/w/thesis.txt'), '2001-01-01T00:00:00'), 0o600])
+        argv = ['trash-empty', '--trash-dir', spelled] + rng.choice([[], ['0'], ['-v']])
+    elif rng.random() < 0.6:
         argv = ['trash-empty'] + rng.choice([[], [], ['0'], ['1'], ['-v'], ['-f', '3'], ['--trash-dir', locs[0][0]]])
     else:
         argv = ['trash-rm', rng.choice(['*', '*', rng.choice(names), 'p*', home + '/*', '/*', '?*', '*.trashinfo'])]
@@ -223,6 +238,8 @@ def check(sim, case, st):
                 kinds.add(('top:' if top else 'inner:') + snap0[tgt][0])
                 if not top:
                     depth = max(depth, p.count('/'))
+    if any('/stick/../' in a for a in argv):
+        st.probes['trash-dir-spelled-through-symlink-dotdot'] += 1
     if env.get('HOME', '').endswith('ulink') or 'xdglink' in env.get('XDG_DATA_HOME', ''):
         st.probes['through-symlinked-home'] += 1
     if any(ev[2] == 'scandir' for ev in r.trace):
